@@ -10,6 +10,9 @@ N2  M[k] if k in M else D                                ->  M.get(k, D)        
 N2s if k in M: v = M[k]  else: v = D                     ->  v = M.get(k, D)
 N3  "..{}..{}..".format(a, b)   (only {} / {0} fields)   ->  f"..{a}..{b}.."
 N5  return A if c else B                                 ->  if c: return A  else: return B
+N8  f(**{"a": x})                                         ->  f(a=x)
+N9  dict() / list() / tuple()                              ->  {} / [] / ()
+N7  x = A if c else B                                      ->  if c: x = A  else: x = B
 N6  d = {}; d["a"] = x; d["b"] = y   (consecutive)         ->  d = {"a": x, "b": y}
 N4  match S: case C(): … case "x": … case _: …           ->  if isinstance(S, C): … elif S == "x": … else: …
     (class patterns without sub-patterns, value/singleton patterns, or-patterns of those, bare wildcard; anything that
@@ -85,6 +88,29 @@ class Normalizer(ast.NodeTransformer):
 
     def visit_Call(self, n: ast.Call):
         self.generic_visit(n)
+        # N8: f(**{"a": x, "b": y})  ->  f(a=x, b=y)      (constant identifier keys, no duplicate with explicit keywords)
+        if any(k.arg is None and isinstance(k.value, ast.Dict) for k in n.keywords):
+            explicit = {k.arg for k in n.keywords if k.arg}
+            new_kw = []
+            ok = True
+            for k in n.keywords:
+                if k.arg is None and isinstance(k.value, ast.Dict):
+                    d = k.value
+                    if all(isinstance(kk, ast.Constant) and isinstance(kk.value, str) and kk.value.isidentifier() and kk.value not in explicit for kk in d.keys) and len({kk.value for kk in d.keys}) == len(d.keys):
+                        new_kw += [ast.keyword(arg=kk.value, value=vv) for kk, vv in zip(d.keys, d.values)]
+                    else:
+                        ok = False
+                        break
+                else:
+                    new_kw.append(k)
+            if ok:
+                n.keywords = new_kw
+                self.count += 1
+        # N9: dict() -> {}, list() -> [], tuple() -> ()
+        if isinstance(n.func, ast.Name) and not n.args and not n.keywords and n.func.id in ("dict", "list", "tuple"):
+            self.count += 1
+            lit = {"dict": ast.Dict(keys=[], values=[]), "list": ast.List(elts=[], ctx=ast.Load()), "tuple": ast.Tuple(elts=[], ctx=ast.Load())}[n.func.id]
+            return ast.copy_location(lit, n)
         f = n.func
         if isinstance(f, ast.Attribute) and f.attr == "format" and isinstance(f.value, ast.Constant) and isinstance(f.value.value, str) and not n.keywords and not any(isinstance(a, ast.Starred) for a in n.args):
             fmt = f.value.value
@@ -136,6 +162,17 @@ class Normalizer(ast.NodeTransformer):
             self.count += 1
             a = ast.copy_location(ast.Return(value=n.value.body), n)
             b = ast.copy_location(ast.Return(value=n.value.orelse), n)
+            node = ast.If(test=n.value.test, body=[a], orelse=[b])
+            return ast.fix_missing_locations(ast.copy_location(node, n))
+        return n
+
+    def visit_Assign(self, n: ast.Assign):
+        self.generic_visit(n)
+        if len(n.targets) == 1 and isinstance(n.targets[0], ast.Name) and isinstance(n.value, ast.IfExp):
+            # N7: `x = A if c else B`  ->  if c: x = A / else: x = B
+            self.count += 1
+            a = ast.copy_location(ast.Assign(targets=[n.targets[0]], value=n.value.body, type_comment=None), n)
+            b = ast.copy_location(ast.Assign(targets=[ast.Name(id=n.targets[0].id, ctx=ast.Store())], value=n.value.orelse, type_comment=None), n)
             node = ast.If(test=n.value.test, body=[a], orelse=[b])
             return ast.fix_missing_locations(ast.copy_location(node, n))
         return n
